@@ -1164,3 +1164,12 @@ MUTANTS += [
  dict(name='c07-benign-m0-restoring-division-top-bit-nonzero-test', prop='C07', benign=True, expect='',
       edits=[('include/core/bigint.hpp', 'if (top_bit == 1 || rem >= divisor) {', 'if (top_bit != 0 || rem >= divisor) {')]),
 ]
+# ---- Legendre symbol
+MUTANTS += [
+ dict(name='c02-legendre-exponent-not-halved', prop='C02', expect='legendre',
+      edits=[('include/core/fp.hpp', '            pminusoneovertwo.template shift_right_in_word<1>(pminusoneovertwo);\n', '')]),
+ dict(name='c02-legendre-exponent-p-plus-one', prop='C02', expect='legendre',
+      edits=[('include/core/fp.hpp', 'pminusoneovertwo.subtract(p, BigInt<bits>::one);', 'pminusoneovertwo.add(p, BigInt<bits>::one);')]),
+ dict(name='c02-legendre-zero-reported-as-nonresidue', prop='C02', expect='legendre',
+      edits=[('include/core/fp.hpp', '            if (tmp.is_zero()) {\n                return 0;\n            } else if (tmp.is_one()) {', '            if (tmp.is_zero()) {\n                return -1;\n            } else if (tmp.is_one()) {')]),
+]
